@@ -365,6 +365,20 @@ pub open spec fn typed_as(d: Data, a: Attr) -> bool {
         None => false,
     }
 }
+/// C19 "any Unicode string stored as a cell's text - including XML-special characters ... reads back as exactly that string ... whether it is
+/// stored as ... a formula's string result": ODF 19.379 office:string-value carries the text of a string cell (LibreOffice: the string RESULT OF
+/// A FORMULA) in an ATTRIBUTE, i.e. behind the attribute-escaping layer (`Tom &amp; Jerry`, `&#10;`, `&#x1F600;`).  The attributes whose
+/// value IS the text handed to the caller: the string, and the ISO 8601 text of a date / time.
+pub open spec fn text_valued(a: Attr) -> bool {
+    value_kind(a.key) matches Some(k) && (k is Str || k is Date || k is Time)
+}
+/// the text a value carries
+pub open spec fn text_of(d: Data) -> Option<Seq<char>> {
+    match d { Data::String(s) => Some(s@), Data::DateTimeIso(s) => Some(s@), Data::DurationIso(s) => Some(s@), _ => None }
+}
+/// `d` carries exactly the VALUE of the attribute `a` (XML 1.0 3.3.3: character and entity references resolved: `unesc`) -- not the
+/// bytes as written between the quotes (`a.raw`, what `Decoder::decode(&a.value)` alone would give: `utf8`)
+pub open spec fn text_unescaped(d: Data, a: Attr) -> bool { unesc(a.raw) is Some && text_of(d) == Some(unesc(a.raw)->Some_0) }
 /// the value attribute can be represented (otherwise the reader has to report an error)
 pub open spec fn data_ok(a: Attr) -> bool {
     match value_kind(a.key) {
@@ -374,9 +388,10 @@ pub open spec fn data_ok(a: Attr) -> bool {
     }
 }
 /// the cell has no value attribute and declares `office:value-type="string"`: its content is its value
+/// (the VALUE of office:value-type -- XML 1.0 3.3.3, references resolved -- is the token `string`)
 pub open spec fn text_route(attrs: Seq<Attr>) -> bool {
     first_value(attrs, 0) >= attrs.len()
-        && first_key(attrs, k_vtype(), 0) < attrs.len() && attrs[first_key(attrs, k_vtype(), 0)].raw == b"string"@
+        && first_key(attrs, k_vtype(), 0) < attrs.len() && unesc(attrs[first_key(attrs, k_vtype(), 0)].raw) == Some("string"@)
 }
 /// C14: the formula text of the cell (empty: none)
 pub open spec fn formula_text(attrs: Seq<Attr>) -> Seq<char> {
@@ -388,6 +403,8 @@ pub open spec fn attrs_ok(attrs: Seq<Attr>) -> bool {
     &&& forall|j: int| 0 <= j < attrs.len() ==> !(#[trigger] attrs[j]).err
     &&& first_value(attrs, 0) < attrs.len() ==> data_ok(attrs[first_value(attrs, 0)])
     &&& first_key(attrs, k_formula(), 0) < attrs.len() ==> unesc(attrs[first_key(attrs, k_formula(), 0)].raw) is Some
+    // the value type is looked at unless a value attribute precedes it
+    &&& first_key(attrs, k_vtype(), 0) < first_value(attrs, 0) ==> unesc(attrs[first_key(attrs, k_vtype(), 0)].raw) is Some
 }
 
 // ---- C19: the text content of a cell
@@ -640,6 +657,9 @@ proof fn witness_resource_bounds()
         (exists|j: int| 0 <= j < atts.rem().len() && (#[trigger] atts.rem()[j]).err) ==> r is Err,
         //# C04.ods_value_typing
         r is Ok && first_value(atts.rem(), 0) < atts.rem().len() ==> typed_as(r->Ok_0.0, atts.rem()[first_value(atts.rem(), 0)]),
+        //# C19,C04.ods_string_value_attribute_unescaped
+        r is Ok && first_value(atts.rem(), 0) < atts.rem().len() && text_valued(atts.rem()[first_value(atts.rem(), 0)]) ==>
+            text_unescaped(r->Ok_0.0, atts.rem()[first_value(atts.rem(), 0)]),
         //# C04.ods_no_value_is_empty
         r is Ok && first_value(atts.rem(), 0) >= atts.rem().len() && !text_route(atts.rem()) ==> r->Ok_0.0 == Data::Empty,
         //# C14.ods_formula_text
@@ -685,10 +705,12 @@ proof fn witness_resource_bounds()
             is_value_set <==> fv < k,
             //# C04.ods_value_typing_so_far
             is_value_set ==> typed_as(val, attrs0[fv]),
+            //# C19,C04.ods_string_value_attribute_unescaped
+            is_value_set && text_valued(attrs0[fv]) ==> text_unescaped(val, attrs0[fv]),
             //# C04.ods_no_value_is_empty_so_far
             !is_value_set ==> val == Data::Empty,
             //# C04.ods_string_type_flag
-            !is_value_set ==> (is_string <==> (vt < k && attrs0[vt].raw == b"string"@)),
+            !is_value_set ==> (is_string <==> (vt < k && unesc(attrs0[vt].raw) == Some("string"@))),
             //# C14.ods_formula_text_so_far
             fi < k ==> unesc(attrs0[fi].raw) is Some && formula@ == unesc(attrs0[fi].raw)->Some_0,
             //# C14.ods_no_formula_so_far
@@ -923,9 +945,9 @@ pub open spec fn n_table() -> Seq<u8> { b"table:table"@ }
 pub open spec fn n_ncr() -> Seq<u8> { b"table:number-columns-repeated"@ }
 pub open spec fn k_nrr() -> Seq<u8> { b"table:number-rows-repeated"@ }
 pub open spec fn is_cell_start(e: Ev) -> bool { e.kind is Start && (e.name =~= n_cell() || e.name =~= n_covered()) }
-/// `decoder().decode(bytes)` followed by `str::parse::<usize>()`
+/// the number the attribute VALUE (references resolved) spells: `decode_and_unescape_value` followed by `str::parse::<usize>()`
 pub open spec fn parse_usize(raw: Seq<u8>) -> Option<usize> {
-    match utf8(raw) { Some(t) => str_parse::<usize>(t), None => None }
+    match unesc(raw) { Some(t) => str_parse::<usize>(t), None => None }
 }
 /// ODF 1.2 19.675 table:number-columns-repeated, default 1 (text of unit ods)
 pub open spec fn rep_scan(attrs: Seq<Attr>) -> Option<usize>
@@ -1457,6 +1479,10 @@ pub assume_specification<T, E>[ Option::<Result<T, E>>::transpose ](o: Option<Re
 pub proof fn axiom_sheet_visible_clone()
     ensures forall|a: SheetVisible, b: SheetVisible| call_ensures(<SheetVisible as Clone>::clone, (&a,), b) ==> a == b,
 {}
+/// `res` is what reading the VALUE of an attribute with these raw bytes gives (XML 1.0 3.3.3: references resolved), whatever the error type
+pub open spec fn unescaped_value<'a, E>(res: Result<Cow<'a, str>, E>, raw: Seq<u8>) -> bool {
+    (unesc(raw) is Some ==> res is Ok && cow_ref(&res->Ok_0)@ == unesc(raw)->Some_0) && (unesc(raw) is None ==> res is Err)
+}
 /// index of the first attribute at or after i that the checking iterator accepts and that has this name; attrs.len() if none
 pub open spec fn first_ok_key(attrs: Seq<Attr>, key: Seq<u8>, i: int) -> int
     decreases attrs.len() - i
@@ -1651,11 +1677,15 @@ proof fn lemma_ranges_push(m0: Map<Seq<char>, (Range<Data>, Range<String>)>, evs
         //# C04,C14.ods_sheet_ranges_by_name
         r is Ok ==> ranges_are(r->Ok_0.sheets.m(), content_events(__p_zip)->Some_0, pc_scan(content_events(__p_zip)->Some_0, 0, pc_init()).st.sheets),
 //@@ closure 0
-    -> (res: Result<Cow<'_, str>, quick_xml::Error>) ensures (unesc(cow_ref(&a.value)@) is Some ==> res is Ok && cow_ref(&res->Ok_0)@ == unesc(cow_ref(&a.value)@)->Some_0) && (unesc(cow_ref(&a.value)@) is None ==> res is Err)
+    -> (res: Result<Cow<'_, str>, quick_xml::Error>) ensures
+        //# C16.ods_style_name_is_the_unescaped_attribute_value
+        unescaped_value(res, cow_ref(&a.value)@)
 //@@ closure 1
     -> (res: String) ensures res@ == cow_ref(&x)@
 //@@ closure 2
-    -> (res: Result<Cow<'_, str>, quick_xml::Error>) ensures (unesc(cow_ref(&a.value)@) is Some ==> res is Ok && cow_ref(&res->Ok_0)@ == unesc(cow_ref(&a.value)@)->Some_0) && (unesc(cow_ref(&a.value)@) is None ==> res is Err)
+    -> (res: Result<Cow<'_, str>, quick_xml::Error>) ensures
+        //# C16.ods_table_style_reference_is_the_unescaped_attribute_value
+        unescaped_value(res, cow_ref(&a.value)@)
 //@@ closure 3
     -> (res: String) ensures res@ == cow_ref(&x)@
 //@@ closure 5
@@ -1782,11 +1812,24 @@ impl Frame {
 //@@ before /match reader\.read_event_into\(row_buf\)/
         let ghost p = reader.pos();
 //@@ loop 1
+                    invariant_except_break
+                        //# C04.row_repeat_count_scan
+                        repeats == 1 && rep_scan(evs[p as int].attrs) == rep_scan(__it1.rem()),
                     invariant
                         reader.events() == evs, evs == old(reader).events(), evs.len() <= usize::MAX, p0 == old(reader).pos(), reader.pos() == p + 1, p >= p0, p < evs.len(),
                         row_scan(evs, p0) == row_scan(evs, p), is_cell_start(evs[p as int]), e.ev() == evs[p as int],
                         cells@.len() - old(cells)@.len() == formulas@.len() - old(formulas)@.len(),
+                    ensures
+                        // what unit ods takes on trust from its wrapper `verif_parse_repeats` (there `parse_usize` is uninterpreted): the
+                        // count is the number the attribute VALUE spells -- references resolved (`parse_usize` over `unesc`), default 1
+                        //# C04.row_repeat_count_is_the_unescaped_attribute_value
+                        rep_scan(evs[p as int].attrs) == Some(repeats),
                     decreases __it1.rem().len(),
+//@@ before? /break;/
+                        proof {
+                            //# C04.row_repeat_count_is_the_unescaped_attribute_value
+                            assert(rep_scan(evs[p as int].attrs) == Some(repeats));
+                        }
 //@@ after /let \(value, formula, is_closed\) = [^;]*;/
                 proof { lemma_cell_scan_end(evs, p as int + 1, txt_init()); }
 //@@ loop 2 it2
